@@ -551,6 +551,125 @@ def run_pool(cfg):
     os._exit(0)
 
 
+def deep_fail(x, n):
+    if n == 0:
+        raise KeyError('deep', x)
+    return deep_fail(x, n - 1)
+
+
+def deep_at(x):
+    """fails far down the call stack for the inputs = 3 mod 4, at a depth that grows with x"""
+    if x % 4 == 3:
+        return deep_fail(x, 40 * x)
+    return 2 * x
+
+
+def runaway(x):
+    if x == 3:
+        def inf(n):
+            return inf(n + 1)
+        return inf(0)
+    return 2 * x
+
+
+def run_deep(cfg):
+    """real worker processes; the mapped function fails at the bottom of a deep call chain (beyond
+    the number of frames the exception record keeps) or by runaway recursion: apply/map re-raise the
+    same type and arguments with the remote traceback attached, imap raises at the item's position
+    and goes on"""
+    import os
+    import signal
+    import threading
+    import billiard
+    from billiard.einfo import RemoteTraceback
+    wd = threading.Timer(240, lambda: os._exit(3))
+    wd.daemon = True
+    wd.start()
+    bad = []
+    runs = 0
+
+    def flag(sig, what, case):
+        if len(bad) < 20:
+            bad.append(dict(signature=sig, what=what, case=case))
+
+    pool = billiard.Pool(2, lost_worker_timeout=2.0)
+    pids = [p.pid for p in pool._pool]
+    for depth in cfg.get('depths', [5, 130, 300, 700, 900]):
+        runs += 1
+        case = dict(kind='apply deep_fail', depth=depth)
+        try:
+            pool.apply_async(deep_fail, (depth, depth)).get(timeout=30)
+            flag('C02:pool-apply-swallowed-exception', 'apply(deep_fail, depth %d) returned' % depth, case)
+        except KeyError as exc:
+            if exc.args != ('deep', depth) or not isinstance(exc.__cause__, RemoteTraceback):
+                flag('C02:pool-apply-wrong-exception', 'apply(deep_fail, depth %d) raised %r cause %r' % (depth, exc, exc.__cause__), case)
+        except BaseException as exc:
+            flag('C02:pool-apply-wrong-exception-type', 'apply of a function raising KeyError(\'deep\', %d) from %d frames down raised %s: %s'
+                 % (depth, depth, type(exc).__name__, str(exc)[:200]), case)
+    runs += 1
+    case = dict(kind='apply runaway')
+    try:
+        pool.apply_async(runaway, (3,)).get(timeout=30)
+        flag('C02:pool-apply-swallowed-exception', 'apply(runaway, (3,)) returned', case)
+    except RecursionError as exc:
+        if not isinstance(exc.__cause__, RemoteTraceback):
+            flag('C02:pool-apply-wrong-exception', 'apply(runaway) raised RecursionError without the remote traceback', case)
+    except BaseException as exc:
+        flag('C02:pool-apply-wrong-exception-type', 'apply of a runaway recursion raised %s: %s' % (type(exc).__name__, str(exc)[:200]), case)
+    xs = list(range(cfg.get('n', 24)))
+    failing = [x for x in xs if x % 4 == 3]
+    for cs in (1, 2, None):
+        runs += 1
+        case = dict(kind='map deep_at', xs=xs, chunksize=cs)
+        try:
+            got = pool.map_async(deep_at, xs, cs).get(timeout=60)
+            flag('C02:pool-map-swallowed-exception', 'map(deep_at, %s) returned %s' % (xs, got), case)
+        except KeyError as exc:
+            if len(exc.args) != 2 or exc.args[0] != 'deep' or exc.args[1] not in failing or not isinstance(exc.__cause__, RemoteTraceback):
+                flag('C02:pool-map-foreign-exception', 'map(deep_at, %s) raised %r (cause %r)' % (xs, exc, exc.__cause__), case)
+        except BaseException as exc:
+            flag('C02:pool-map-wrong-exception-type', 'map(deep_at, %s, chunksize=%s) raised %s: %s' % (xs, cs, type(exc).__name__, str(exc)[:200]), case)
+    runs += 1
+    it = pool.imap(deep_at, xs)
+    seen = []
+    try:
+        while len(seen) <= len(xs) + 1:
+            try:
+                seen.append(['yield', it.next(timeout=30)])
+            except StopIteration:
+                seen.append(['stop'])
+                break
+            except BTimeoutError:
+                seen.append(['timeout'])
+                break
+            except Exception as exc:
+                einfo = exc.args[0] if exc.args else None
+                inner = getattr(einfo, 'exception', None)
+                inner = getattr(inner, 'exc', inner)
+                seen.append(['raise', type(inner).__name__, list(getattr(inner, 'args', ()))])
+    except Exception as exc:
+        seen.append(['crash', repr(exc)])
+    want = [['raise', 'KeyError', ['deep', x]] if x % 4 == 3 else ['yield', 2 * x] for x in xs] + [['stop']]
+    if seen != want:
+        flag('C02:pool-imap-error-position', 'imap(deep_at, %s) consumer saw %s, sequential: %s' % (xs, seen, want),
+             dict(kind='imap deep_at', xs=xs))
+    runs += 1
+    try:
+        if pool.apply_async(deep_at, (2,)).get(timeout=30) != 4:
+            flag('C02:pool-apply-differs', 'apply(deep_at, (2,)) after the failing runs', dict(kind='apply after'))
+    except BaseException as exc:
+        flag('C02:pool-apply-raised', 'apply after the failing runs raised %r' % (exc,), dict(kind='apply after'))
+    pool.close()
+    for pid in pids + [p.pid for p in pool._pool]:
+        try:
+            os.kill(pid, signal.SIGKILL)
+        except OSError:
+            pass
+    print(json.dumps(dict(runs=runs, bad=bad)))
+    sys.stdout.flush()
+    os._exit(0)
+
+
 RUNNERS = dict(chunks=run_chunks, star=run_star, multi=run_multi, **{'async': run_async}, map=run_map, imap=run_imap,
                flat=run_flat, apply=run_apply)
 
@@ -568,4 +687,6 @@ if __name__ == '__main__':
     cases = json.load(sys.stdin)
     if isinstance(cases, dict) and cases.get('mode') == 'pool':
         run_pool(cases)
+    if isinstance(cases, dict) and cases.get('mode') == 'deep':
+        run_deep(cases)
     print(json.dumps([run_case(c) for c in cases]))
